@@ -89,7 +89,7 @@ def musLoop (cap : Nat) (input : List Nat) (size offset : Nat) (out : List Nat) 
     -- `output[result..result + chunk].clone_from_slice(&input[offset..offset + chunk])`
     if out.length + chunkSize > cap then panic else
     (slice input offset chunkSize).bind fun data =>
-    if hc : chunkSize = 0 ∨ chunkSize > size then fuel   -- cannot happen: `musLoop_no_fuel`
+    if _hc : chunkSize = 0 ∨ chunkSize > size then fuel   -- cannot happen (`BV.Stored.musLoop_ok`); keeps the recursion well-founded
     else musLoop cap input (size - chunkSize) (offset + chunkSize) (out ++ data)
   else
     push cap out (lit litsMus 36)
